@@ -31,6 +31,10 @@ CHECKS = {
             "Runtime monitor: for five allowlists x 13 advertised-address classes (incl. v4-mapped, absent, malformed lengths) x 5 prior states of the name x 9 carriers (UDP alive from allowed/disallowed/unparsable source, compound, compressed, push/pull join/non-join, join from a disallowed host) a higher-incarnation alive claim is injected into a real node; after each step the subject record, and periodically every record / Members() entry / event, must satisfy an independent net/netip predicate, and disallowed claims must leave record, member count, event count (and, for disallowed sources, the queue) unchanged. Positive control counted.",
             "Trusts net/netip, the wire codec, verif accessors. Empty allowlist = allow-all is a code convention outside the property (not generated).",
             "invariant monitor with independent CIDR predicate over injected claims", "DESIGN.md §3 C18"),
+    "C04": ("E1-simnet", "exploration",
+            "Runtime absence monitor over healthy executions: real 2-16 node clusters in virtual time with per-packet PRNG latency strictly below ProbeTimeout/2, PRNG join order and user operations; the transport tap (every packet and stream decoded by the oracle-side codec), the push/pull states, the per-node dumps every 250 ms, the logs, the event streams and GetHealthScore are all watched for any trace of suspicion, failure declaration, refutation, failed probe or non-zero health. Exploration: 'held on K healthy executions covering these size x latency x config x operation cells'.",
+            "Trusts the simulated network's latency bound (strict), the wire codec, synctest. Traffic attempted on an already shut down transport never reached the network and is ignored.",
+            "absence monitors on wire tap, dumps, logs, events (virtual time)", "DESIGN.md §3 C04"),
 }
 
 NOT_YET = "check not built yet in this round (design in DESIGN.md §3); not claimed until its monitor runs clean on the unchanged tree"
@@ -66,7 +70,7 @@ def main():
             "add_only": True,
         },
         "engines": [
-            {"name": "E1-simnet", "path": "harness/simnet.go", "serves_properties": [], "kind_free_text": "real Memberlist instances on an in-memory transport inside a testing/synctest bubble (virtual time), with wire tap, fault scripts and fake peers"},
+            {"name": "E1-simnet", "path": "harness/simnet.go", "serves_properties": ["C02", "C04", "C17"], "kind_free_text": "real Memberlist instances on an in-memory transport inside a testing/synctest bubble (virtual time), with wire tap, fault scripts and fake peers"},
             {"name": "E2-model-lockstep", "path": "harness/", "serves_properties": ["C01", "C02", "C06", "C10", "C17", "C18"], "kind_free_text": "PRNG operation sequences against one object with an executable reference model evaluated in lock-step"},
         ],
         "checks": checks,
